@@ -19,6 +19,7 @@ import Driver.C19
 import Driver.C01
 import Driver.C04
 import Driver.C05
+import Driver.Small
 /-!
 # Line-protocol driver
 
@@ -30,6 +31,7 @@ open Proto
 
 def dispatch (inp obs : List String) : Verdict :=
   match inp.head? with
+  | some "SM" => Driver.Small.run inp obs
   | some "C11" => Driver.C11.run inp obs
   | some "C06" => Driver.C06.run inp obs
   | some "C03" => Driver.C03.run inp obs
